@@ -8,15 +8,18 @@ CONSTANTS Depth,
           RootP,      \* kinds of the parameter p in a root class
           MixinP,     \* kinds of p in a plain mixin (no HasAccessibles)
           DerivedP, DerivedC, DerivedM,   \* override kinds in a derived class
+          DerivedW,   \* override kinds of the parameters with composite datatypes (member properties)
           MaxOverrides,
           MaxRoots    \* at most this many classes without bases (roots / mixins)
 VARIABLE hist
 
-Body(mx, p, c, m) == [mixin |-> mx, p |-> p, c |-> c, m |-> m]
-RootBodies == {Body(FALSE, p, "cmd", "-") : p \in RootP} \cup {Body(TRUE, p, "-", "-") : p \in MixinP}
+Body(mx, p, c, m, w) == [mixin |-> mx, p |-> p, c |-> c, m |-> m, w |-> w]
+RootBodies == {Body(FALSE, p, "cmd", "-", "-") : p \in RootP} \cup {Body(TRUE, p, "-", "-", "-") : p \in MixinP}
 Weight(b) == (IF b.p = "-" THEN 0 ELSE 1) + (IF b.c = "-" THEN 0 ELSE 1) + (IF b.m = "-" THEN 0 ELSE 1)
-DerivedBodies == {b \in {Body(FALSE, p, c, m) : p \in DerivedP \cup {"-"}, c \in DerivedC \cup {"-"},
-                                                m \in DerivedM \cup {"-"}} : Weight(b) <= MaxOverrides}
+             + (IF b.w = "-" THEN 0 ELSE 1)
+DerivedBodies == {b \in {Body(FALSE, p, c, m, w) : p \in DerivedP \cup {"-"}, c \in DerivedC \cup {"-"},
+                                                   m \in DerivedM \cup {"-"}, w \in DerivedW \cup {"-"}} :
+                     Weight(b) <= MaxOverrides}
 
 Same(x) == {y \in DOMAIN desc : y # x /\ Key(defs', insts', y) = Key(defs', insts', x)}
 Exp(x) == [live |-> DOMAIN desc', same |-> Same(x)]
